@@ -18,6 +18,7 @@
 #include <fstream>
 #include <functional>
 #include <map>
+#include <regex>
 #include <set>
 #include <sstream>
 #include <string>
@@ -56,6 +57,7 @@ struct Outcome {
 
 struct Known {
 	std::string prop, sig, what;
+	std::string sig_re, case_re; // optional: the finding's call-site class / the history class it needs
 };
 
 inline std::string
@@ -183,7 +185,7 @@ class Runner {
 				return o;
 			};
 			if (get("status") == "known" && get("property") == spec.id) {
-				known.push_back({get("property"), get("sig"), get("what")});
+				known.push_back({get("property"), get("sig"), get("what"), get("sig_re"), get("case_re")});
 				if (vr_nknown_sigs < VR_MAXKNOWN)
 					snprintf(vr_known_sigs[vr_nknown_sigs++], sizeof(vr_known_sigs[0]), "%s", get("sig").c_str());
 			}
@@ -198,6 +200,8 @@ class Runner {
 	pid_t srv_pid = -1;
 	int   srv_in = -1, srv_out = -1, srv_err = -1, srv_cases = 0;
 	int   recycle = 400;
+	std::vector<std::string> srv_history; // cases the current child has executed (triage of cross-case state)
+	long  unstable_first = 0;
 
 	void
 	child_run(const std::string &text)
@@ -278,7 +282,7 @@ class Runner {
 	}
 
 	void
-	finish_outcome(Outcome &o, bool timed, bool died, int status, int efd)
+	finish_outcome(Outcome &o, bool timed, bool died, int status, int efd, const std::string &text)
 	{
 		off_t sz = lseek(efd, 0, SEEK_END);
 		if (sz > 0) {
@@ -307,11 +311,23 @@ class Runner {
 				o.sig = crash_signature(o.errout, status);
 				o.msg = "child died: op " + std::to_string(shared->opidx) + " (" + shared->lastop + ")";
 			}
-			for (auto &k : known)
-				if (k.sig == o.sig) {
+			for (auto &k : known) {
+				bool hit = k.sig == o.sig && k.sig_re.empty();
+				if (!hit && !k.sig_re.empty()) {
+					try {
+						hit = std::regex_search(o.sig, std::regex(k.sig_re)) &&
+						    (k.case_re.empty() || std::regex_search(text, std::regex(k.case_re)));
+					} catch (...) {
+						hit = false;
+					}
+					if (hit)
+						o.sig = k.sig; // counted under the finding's canonical signature
+				}
+				if (hit) {
 					o.kind = Outcome::KNOWN;
 					break;
 				}
+			}
 		}
 	}
 
@@ -323,6 +339,9 @@ class Runner {
 			srv_stop();
 		if (srv_pid < 0)
 			srv_start();
+		if (srv_cases == 0)
+			srv_history.clear();
+		srv_history.push_back(text);
 		srv_cases++;
 		memset(shared, 0, sizeof(*shared));
 		if (ftruncate(srv_err, 0) != 0 || lseek(srv_err, 0, SEEK_SET) != 0) {
@@ -350,13 +369,13 @@ class Runner {
 			while (waitpid(srv_pid, &status, 0) < 0 && errno == EINTR) {
 			}
 			int efd = srv_err;
-			finish_outcome(o, timed, died, status, efd);
+			finish_outcome(o, timed, died, status, efd, text);
 			close(srv_in);
 			close(srv_out);
 			close(srv_err);
 			srv_pid = -1;
 		} else
-			finish_outcome(o, false, false, 0, srv_err);
+			finish_outcome(o, false, false, 0, srv_err, text);
 		return o;
 	}
 
@@ -402,7 +421,7 @@ class Runner {
 		while (waitpid(pid, &status, 0) < 0 && errno == EINTR) {
 		}
 		bool died = !(WIFEXITED(status) && WEXITSTATUS(status) == 0);
-		finish_outcome(o, timed, died, status, efd);
+		finish_outcome(o, timed, died, status, efd, text);
 		close(efd);
 		if (verbose && !o.errout.empty())
 			fprintf(stderr, "%s\n", o.errout.c_str());
@@ -462,12 +481,34 @@ class Runner {
 			hang_found = true;
 		} // fallthrough
 		case Outcome::VIOLATION:
+			if (spec.use_server && !in_shrink && o.kind == Outcome::VIOLATION) {
+				// the failure happened in the long-lived child: does the case fail on its own?
+				bool alone = false;
+				for (int i = 0; i < 2 && !alone; i++) {
+					Outcome f = run_text(text);
+					alone     = f.kind == Outcome::VIOLATION || f.kind == Outcome::TIMEOUT;
+				}
+				if (!alone) {
+					// keep what the child had executed: a failure that needs earlier cases in the same process is state
+					// surviving nng_fini/nng_init, to be triaged with --replay-history (never reported from here)
+					unstable_first++;
+					char nm[256];
+					snprintf(nm, sizeof nm, "/verif/build/replays/%s-history-%d-%ld.cases", spec.id.c_str(), (int) getpid(), unstable_first);
+					std::ofstream f(nm);
+					for (auto &h : srv_history)
+						f << h << "====\n";
+					f << "#sig " << o.sig << "\n#stderr\n" << o.errout.substr(0, 8000) << "\n";
+					return true;
+				}
+			}
+			in_shrink      = true;
 			last_fail_text = text;
 			last_fail      = o;
 			return false;
 		}
 		return true;
 	}
+	bool in_shrink = false;
 };
 
 inline std::string
@@ -503,6 +544,7 @@ pbt_main(int argc, char **argv, PropSpec spec)
 {
 	long        cases = 1000, size = 100;
 	uint64_t    seed  = 1;
+	std::string rhist;
 	std::string out, replay, regress, knownf = "/verif/known_findings.json", replaydir = "/verif/build/replays";
 	int         worker = 0;
 	for (int i = 1; i < argc; i++) {
@@ -522,6 +564,8 @@ pbt_main(int argc, char **argv, PropSpec spec)
 			knownf = nx();
 		else if (a == "--worker")
 			worker = atoi(nx().c_str());
+		else if (a == "--replay-history")
+			rhist = nx();
 		else if (a == "--replaydir")
 			replaydir = nx();
 	}
@@ -531,6 +575,30 @@ pbt_main(int argc, char **argv, PropSpec spec)
 	R.load_known(knownf);
 	auto t0 = std::chrono::steady_clock::now();
 
+	if (!rhist.empty()) {
+		// feed a saved sequence of cases to one executor child, in order
+		std::ifstream f(rhist);
+		std::string   line, cur;
+		int           n = 0;
+		R.recycle       = 1000000;
+		while (std::getline(f, line)) {
+			if (line.rfind("#sig", 0) == 0)
+				break;
+			if (line == "====") {
+				Outcome o = R.run_server(cur);
+				n++;
+				if (o.kind != Outcome::PASS && o.kind != Outcome::KNOWN) {
+					printf("HISTORY-FAIL after %d case(s) sig=%s msg=%s\n%s\n%s\n", n, o.sig.c_str(), o.msg.c_str(), cur.c_str(), o.errout.substr(0, 12000).c_str());
+					return 1;
+				}
+				cur.clear();
+			} else
+				cur += line + "\n";
+		}
+		R.srv_stop();
+		printf("HISTORY property=%s held over %d case(s)\n", spec.id.c_str(), n);
+		return 0;
+	}
 	if (!replay.empty()) {
 		std::ifstream     f(replay);
 		std::stringstream ss;
@@ -619,7 +687,7 @@ pbt_main(int argc, char **argv, PropSpec spec)
 		std::ofstream f(out);
 		f << "{\"property_id\":\"" << spec.id << "\",\"seed\":" << seed << ",\"worker\":" << worker
 		  << ",\"evaluations\":" << R.evaluations << ",\"nontrivial_total\":" << R.nontrivial_total
-		  << ",\"inconclusive\":" << R.inconclusive << ",\"wall_s\":" << wall << ",\"ok\":" << (ok ? "true" : "false")
+		  << ",\"inconclusive\":" << R.inconclusive << ",\"unstable_first\":" << R.unstable_first << ",\"wall_s\":" << wall << ",\"ok\":" << (ok ? "true" : "false")
 		  << ",\"rule\":\"" << json_escape(spec.rule) << "\",\"nontrivial_hashes\":[";
 		bool first = true;
 		for (auto h : R.nontrivial_hashes) {
